@@ -200,6 +200,30 @@ def pair_overwrites(enc: bytes, offsets):
                     yield ("overwrite2", (i, j), (va, vb)), bytes(m)
 
 
+HOSTILE_VARINT = (b"\xff\xff\xff\xff\x0f", b"\x81\x80\x80\x80\x08", b"\x80\x80\x80\x80\x08", b"\x80\x80\x80\x80\x10",
+                  b"\xff\xff\xff\xff\x7f", b"\xff\xff\xff\xff\xff\x0f", b"\x80\x80\x80\x80\x80\x01", b"\xff\xff\x03",
+                  b"\x80", b"\xff\x7f", b"\x80\x00")
+HOSTILE_FIXED = {4: (b"\x7f\xff\xff\xff", b"\x80\x00\x00\x00", b"\xff\xff\xff\xfe", b"\x00\x01\x00\x00", b"\xff\xff\xff\x00"),
+                 2: (b"\x7f\xff", b"\x80\x00", b"\xff\xfe", b"\x01\x00"),
+                 1: tuple(bytes([b]) for b in range(256))}
+
+
+def prefix_substitutions(enc: bytes, layout, flexible, is_request_header=False):
+    """Replace each whole length / count / tag / size / marker span by hostile encodings of that kind:
+    maximal and over-long varints, lengths around 2^31, negative fixed-width lengths."""
+    for s, e, kind, path in layout.spans:
+        if kind == "data":
+            continue
+        fixed_len = kind == "marker" or (kind == "len" and (not flexible or (is_request_header and path.endswith(".client_id"))))
+        if fixed_len:
+            repls = HOSTILE_FIXED.get(e - s, ())
+        else:
+            repls = HOSTILE_VARINT
+        for r in repls:
+            if r != enc[s:e]:
+                yield ("substitute", [s, e], r.hex()), enc[:s] + r + enc[e:]
+
+
 # ---------------------------------------------------------------------------------------
 # step budget: deterministic stand-in for "time proportional to the input"
 # ---------------------------------------------------------------------------------------
